@@ -106,6 +106,10 @@ func (cfg *Config) VerifyConfig(schema base.LogSchema) error {
 	if _, err := schema.CreateFieldLocators(cfg.Serialization.EnvironmentFields); err != nil {
 		return fmt.Errorf(".serialization.environmentFields: %w", err)
 	}
+	// a misspelt name here would go unnoticed and leave the field in the output
+	if _, err := schema.CreateFieldLocators(cfg.Serialization.HiddenFields); err != nil {
+		return fmt.Errorf(".serialization.hiddenFields: %w", err)
+	}
 	for field, rewriteConfig := range cfg.Serialization.RewriteFields {
 		if _, err := schema.CreateFieldLocator(field); err != nil {
 			return fmt.Errorf(".serialization.rewriteFields[%s]: Field is invalid: %w", field, err)
